@@ -266,7 +266,11 @@ fn issuer_history(ctx: &Ctx, case: u64, l: &mut Local) {
                 (pu.clone(), ps.clone(), *owner)
             }
             _ => {
-                let u = gen::gen_claims(&mut r, &g);
+                let mut u = gen::gen_claims(&mut r, &g);
+                if r.chance(8) {
+                    // a call that makes the issuer write several hundred decoys (when decoys are on)
+                    u[format!("rows#{k}:777;")] = Value::Array((0..150 + r.below(150)).map(|i| json!({"i": i % 5})).collect());
+                }
                 let st = gen::gen_strategy(&mut r, &u, skind);
                 (u, st, k)
             }
@@ -509,6 +513,12 @@ fn holder_history(ctx: &Ctx, case: u64, l: &mut Local) {
         if let Some(k) = kb.as_mut() {
             if r.chance(25) {
                 k.key_idx = 1;
+            }
+            // the nonce of the previous key-bound call again, for another audience
+            if let (false, Some((_, Some(pk)))) = (repeat, prev_args.as_ref()) {
+                if r.chance(20) {
+                    k.nonce = pk.nonce.clone();
+                }
             }
         }
         prev_args = Some((sel.clone(), kb.clone()));
